@@ -59,7 +59,7 @@ def run(ctx, res):
     res.require_min("R-LIN", 15)
     # the inductive cursor invariant, laps included (channelinduct.py)
     from ..channelinduct import rule_induct
-    res.guard(rule_induct, prog, res)
+    res.guard(rule_induct, prog, res, with_mapped=True)
     res.require_min("R-INDUCT", 12)
     res.require_min("R-CURSOR-PAIR", 3)
     res.require_min("L-PAIR", 10)
